@@ -322,6 +322,34 @@ Definition wl_spec_step (ig : bool) (l : list Z) (o : wlop) : list Z * obs :=
   | WLReduce => (l, OList (if ig then [] else l))
   end.
 
+(* ---------- Reduce overlapping Adds of another goroutine ---------- *)
+Fixpoint w_final (w : rw) (ops : list wop) : rw :=
+  match ops with
+  | [] => w
+  | WAdd t v :: ops' => w_final (rw_add w t v) ops'
+  | WReduce _ :: ops' => w_final w ops'
+  end.
+
+Fixpoint w_hist (ops : list wop) : list (Z * Z) :=
+  match ops with
+  | [] => []
+  | WAdd t v :: ops' => (t, v) :: w_hist ops'
+  | WReduce _ :: ops' => w_hist ops'
+  end.
+
+Definition adds_ops (adds : list (Z * Z)) : list wop := map (fun p => WAdd (fst p) (snd p)) adds.
+
+(* Reduce is ONE read of the window: what its callback is shown is the Reduce of the window
+   before the overlapping Adds (at the time Reduce was called), or after the first j of them
+   (at the time of the j-th) - one state, never a mixture *)
+Fixpoint one_state_views (size : nat) (iv t0 : Z) (ig : bool) (h : list (Z * Z)) (now : Z)
+         (adds : list (Z * Z)) : list (list (list Z)) :=
+  rw_reduce_spec size iv t0 ig h now ::
+  match adds with
+  | [] => []
+  | a :: adds' => one_state_views size iv t0 ig (h ++ [a]) (fst a) adds'
+  end.
+
 (* ---------- cases ---------- *)
 Inductive case :=
 | KWindow (size : Z) (iv t0 : Z) (ig : bool) (ops : list wop) (seen : list (list (list Z)))
@@ -337,7 +365,13 @@ Inductive case :=
 | KLinQueue (size : Z) (pre : list qop) (evs : list (lev qop))
 | KLinRing (n : Z) (pre : list rop) (evs : list (lev rop))
 | KLinCache (limit : Z) (pre : list ccop) (evs : list (lev ccop))
-| KLinWindow (size iv t0 : Z) (ig : bool) (evs : list (lev wlop)).
+| KLinWindow (size iv t0 : Z) (ig : bool) (evs : list (lev wlop))
+(* forced schedule: sequential prefix; Reduce called at [tr] and held inside its callback while
+   another goroutine Adds at later times; [view] = the buckets the callback was shown;
+   sequential operations afterwards *)
+| KWindowGate (size iv t0 : Z) (ig : bool) (pre : list wop) (seenpre : list (list (list Z)))
+              (tr : Z) (adds : list (Z * Z)) (view : list (list Z))
+              (post : list wop) (seenpost : list (list (list Z))).
 
 Definition agrees (c : case) : bool :=
   match c with
@@ -363,6 +397,13 @@ Definition agrees (c : case) : bool :=
     linearisable_b cc_step true (run_pre cc_step (c_new limit) pre) evs
   | KLinWindow size iv t0 ig evs =>
     linearisable_b (fun w o => wl_step w t0 o) true (rw_new (Z.to_nat size) iv t0 ig) evs
+  | KWindowGate size iv t0 ig pre seenpre tr adds view post seenpost =>
+    (* the code: Reduce holds the read lock from choosing its buckets to the last callback *)
+    let w0 := rw_new (Z.to_nat size) iv t0 ig in
+    let w1 := w_final w0 pre in
+    list_eqb lists_eqb (w_run w0 pre) seenpre &&
+    lists_eqb (rw_reduce w1 tr) view &&
+    list_eqb lists_eqb (w_run (w_final w1 (adds_ops adds)) post) seenpost
   end.
 
 (* the number of distinct keys a trailing run of Get hits found = entries held *)
@@ -422,6 +463,13 @@ Definition prop_ok (c : case) : bool :=
     joins_ok evs && linearisable_b sc_step true (run_pre sc_step (s_new limit) pre) evs
   | KLinWindow size iv t0 ig evs =>
     if (1 <=? size) && (0 <? iv) then linearisable_b (wl_spec_step ig) true [] evs else true
+  | KWindowGate size iv t0 ig pre seenpre tr adds view post seenpost =>
+    if (1 <=? size) && (0 <? iv) && times_mono t0 (pre ++ WReduce tr :: adds_ops adds ++ post) then
+      let h := w_hist pre in
+      list_eqb lists_eqb (w_spec (Z.to_nat size) iv t0 ig [] pre) seenpre &&
+      existsb (fun v => lists_eqb v view) (one_state_views (Z.to_nat size) iv t0 ig h tr adds) &&
+      list_eqb lists_eqb (w_spec (Z.to_nat size) iv t0 ig (h ++ adds) post) seenpost
+    else true
   end.
 
 Inductive mobs := MW (l : list (list (list Z))) | MO (l : list obs) | MB (b : bool).
@@ -436,5 +484,8 @@ Definition model_obs (c : case) : mobs :=
   | KSet ops _ => MO (visible true (set_run [] ops))
   | KCache limit ops _ => MO (visible true (cc_run (c_new limit) ops))
   | KCacheW limit slots interval mv ops _ => MO (visible true (cwx_run (cw_new limit slots interval mv) ops))
+  | KWindowGate size iv t0 ig pre _ tr adds _ post _ =>
+    let w1 := w_final (rw_new (Z.to_nat size) iv t0 ig) pre in
+    MW (w_run (rw_new (Z.to_nat size) iv t0 ig) pre ++ [rw_reduce w1 tr] ++ w_run (w_final w1 (adds_ops adds)) post)
   | _ => MB (agrees c)
   end.
